@@ -40,7 +40,8 @@ HOSTILE_PARAM_NAMES = ["user-id", "class", "from", "type", "id", "X-Trace-Id", "
 BODY_ARG_PARAM_NAMES = ["body", "files", "form_data"]  # equal to the names the generator gives the request-body argument
 TAGS = ["pets", "users", "orders", "admin", "Store", "data-sources", "Reports"]
 VARIANT_TAGS = ["Pets", "PETS", "data_sources", "DataSources", "Default", "store", "USERS"]  # case/punctuation variants of TAGS / default
-HOSTILE_TAGS = ["transport", "request", "close", "config", "v1/alpha", "über", "class", "models", "a b", "1st"]
+HOSTILE_TAGS = ["v1/alpha", "über", "class", "models", "a b", "1st", "core", "endpoints"]
+CLIENT_ATTR_TAGS = ["request", "close", "transport", "config"]  # equal to attributes/methods of the generated APIClient
 PATH_TEMPLATES = [
     ("/pets", []), ("/pets/{petId}", ["petId"]), ("/users", []), ("/users/{user_id}", ["user_id"]),
     ("/users/{user_id}/orders/{orderId}", ["user_id", "orderId"]), ("/orders", []), ("/orders/{id}", ["id"]),
@@ -609,7 +610,7 @@ def _operation(draw, g: Gate, names: list[str], path: str, path_vars: list[str],
         op["operationId"] = draw(st.sampled_from(["class", "import", "get.pets", "get pets", "2fast", "Get", "list", "type", "méthode", "from"])) + ("" if draw(st.booleans()) else str(op_index))
     # tags
     tag_kind = g.pick(draw, [(None, "one"), (None, "one"), (None, "none"), ("multi_tag", "multi"), ("hostile_tag", "hostile"),
-                             ("tag_variant", "variant")], fallback="one")
+                             ("tag_variant", "variant"), ("client_attr_tag", "client_attr")], fallback="one", weights=[3, 3, 3, 2, 2, 2, 1])
     if tag_kind == "one":
         op["tags"] = [draw(st.sampled_from(TAGS))]
     elif tag_kind == "multi":
@@ -618,6 +619,8 @@ def _operation(draw, g: Gate, names: list[str], path: str, path_vars: list[str],
         op["tags"] = [draw(st.sampled_from(HOSTILE_TAGS))]
     elif tag_kind == "variant":
         op["tags"] = [draw(st.sampled_from(VARIANT_TAGS))]
+    elif tag_kind == "client_attr":
+        op["tags"] = [draw(st.sampled_from(CLIENT_ATTR_TAGS))]
     if g.flag(draw, "summary", 1, 3):
         op["summary"] = draw(st.sampled_from(["Do the thing", "List things.", "Fetch one"]))
     if g.flag(draw, "op_description", 1, 5):
@@ -750,6 +753,21 @@ def specs(draw, gate: Gate | None = None, max_schemas: int = 5, max_ops: int = 4
                 item["parameters"].append({"name": "trace", "in": "query", "required": False, "schema": {"type": "string"}})
             path_level = {(p["in"], p["name"]) for p in item["parameters"]}
         item[method] = _operation(draw, g, names, path, pvars, method, oi, path_level, schemas)
+    all_ops = [(p, m, item[m]) for p, item in paths.items() for m in item if m in METHODS]
+    if len(all_ops) >= 2 and g.flag(draw, "opid_collision_cluster", 1, 6):
+        # operationIds equal after sanitisation, plus one that equals the de-duplication suffix form, inside ONE tag client
+        base = draw(st.sampled_from(["listUsers", "getItem", "fetchAll"]))
+        snake = re.sub(r"([a-z0-9])([A-Z])", r"\1_\2", base).lower()
+        ids = draw(st.permutations([base, snake, snake + "_2", base[0].upper() + base[1:], snake + "_3"]))
+        tag = draw(st.sampled_from(TAGS))
+        for (p_, m_, op_), oid in zip(all_ops, ids):
+            op_["operationId"] = oid
+            op_["tags"] = [tag]
+    if len(all_ops) >= 2 and g.flag(draw, "tag_variant", 1, 8):
+        # one tag written with different word boundaries / separators (still one tag group by alphanumeric content)
+        cluster = draw(st.sampled_from([["data-sources", "data_sources", "dataSources"], ["user groups", "user-groups", "userGroups"]]))
+        for (p_, m_, op_) in all_ops:
+            op_["tags"] = [draw(st.sampled_from(cluster))]
     spec: dict[str, Any] = {
         "openapi": draw(st.sampled_from(["3.0.0", "3.0.3", "3.1.0"])) if g.flag(draw, "openapi_31", 1, 6) else "3.0.3",
         "info": {"title": draw(st.sampled_from(["Test API", "Pet Store", "My Service"])), "version": "1.0.0"},
@@ -777,7 +795,7 @@ def configs(draw, gate: Gate | None = None) -> dict:
     elif core_kind != "embedded":
         core = ".".join(["shared", "rt", "corepkg"][3 - core_kind:]) if core_kind > 1 else "sharedcore"
     naming = g.pick(draw, [(None, "operationId"), (None, "operationId"), ("naming_clean", "clean"), ("naming_path", "path")], fallback="operationId")
-    fmt = g.pick(draw, [(None, "json"), (None, "json"), ("fmt_yaml", "yaml")], fallback="json")
+    fmt = g.pick(draw, [(None, "json"), (None, "json"), ("fmt_yaml", "yaml"), ("fmt_yaml_int_status", "yaml_int")], fallback="json")
     return {"out": out, "core": core, "naming": naming, "fmt": fmt}
 
 
@@ -826,7 +844,7 @@ def valid_case(case: dict) -> bool:
     def dotted(p):
         return isinstance(p, str) and p != "" and all(seg.isidentifier() for seg in p.split("."))
 
-    if not dotted(cfg.get("out")) or cfg.get("naming") not in ("operationId", "clean", "path") or cfg.get("fmt") not in ("json", "yaml"):
+    if not dotted(cfg.get("out")) or cfg.get("naming") not in ("operationId", "clean", "path") or cfg.get("fmt") not in ("json", "yaml", "yaml_int"):
         return False
     if cfg.get("core") is not None and not dotted(cfg["core"]):
         return False
